@@ -199,8 +199,9 @@ func Specs() []TypeSpec {
 					"headers": map[string]any{"Content-Type": "application/json", "X-Val": "{{ .Values.a }}"},
 				},
 				"payload":         `{"sub":"{{ .Subject.ID }}","v":"cat"}`,
-				"forward_headers": []any{"X-Fwd"},
-				"forward_cookies": []any{"c1"},
+				// deliberately not in sorted order
+				"forward_headers": []any{"X-Fwd", "X-Also"},
+				"forward_cookies": []any{"c1", "b0"},
 				"cache_ttl":       "80s",
 				"values":          map[string]any{"a": "a-cat"},
 			},
